@@ -43,6 +43,10 @@ pub fn bucket(n: u64) -> String {
 
 pub fn run(args: &Args) {
     silence_stderr();
+    if std::env::var("VERIF_KEEP_STDERR").is_ok() {
+        // debugging aid: show panics of the harness itself
+        std::panic::set_hook(Box::new(|info| eprintln!("HARNESS-PANIC {info}")));
+    }
     let mut rng = Rng::new(args.seed);
     let mut out = std::io::BufWriter::new(std::fs::File::create(&args.out).expect("out file"));
     let mut stats = Stats::default();
